@@ -598,6 +598,69 @@ Proof.
   - intro H. apply (eff_prefix_all bound col [] [] seen_nil). exact H.
 Qed.
 
+(* beyond the bound the histogram is NOT the exact recomputation over all consumed rows: two slots, column a b a c a a *)
+Lemma hist_all_rows_refuted :
+  exists (bound : Z) (bs : list batch),
+    hist [0; 1] bound 0 bs = [2; 0] /\ hist_spec [0; 1] (column 0 (concat bs)) = [3; 1] /\
+    hist_general [0; 1] bound (column 0 (concat bs)) = [2; 0] /\
+    eff_prefix bound [] (column 0 (concat bs)) = [V [97%N]; V [98%N]].
+Proof.
+  exists 2, [[[V [97%N]]; [V [98%N]]; [V [97%N]]]; [[V [99%N]]; [V [97%N]]; [V [97%N]]]].
+  vm_compute. repeat split; reflexivity.
+Qed.
+
+(* ---- bridge to C15's model of PrimitiveConstrainedCounter (Sketch/Bounded.v): keys there are harness ids ---------- *)
+
+Definition mapk (enc : val -> N) (c : al val) : Bounded.counter := map (fun kc => (enc (fst kc), snd kc)) c.
+
+Section BoundedBridge.
+  Variable enc : val -> N.
+  Variable univ : list val.
+  Hypothesis enc_inj : forall a b, In a univ -> In b univ -> enc a = enc b -> a = b.
+
+  Lemma incr_bridge c v : incl (map fst c) univ -> In v univ ->
+    mapk enc (incr val_eq_dec c v) = Bounded.incr (mapk enc c) (enc v).
+  Proof.
+    intros Hc Hv. induction c as [|[k n] c IH]; cbn [incr mapk map Bounded.incr fst snd]; [reflexivity|].
+    assert (Hk : In k univ) by (apply Hc; left; reflexivity).
+    assert (Hc' : incl (map fst c) univ) by (intros x I; apply Hc; right; exact I).
+    destruct (val_eq_dec v k) as [->|NE].
+    - rewrite N.eqb_refl. reflexivity.
+    - destruct (N.eqb_spec (enc v) (enc k)) as [E|E]; [exfalso; apply NE; apply enc_inj; assumption|].
+      cbn [map fst snd]. f_equal. apply IH. assumption.
+  Qed.
+
+  Lemma bc_add_bridge bound c v : incl (map fst c) univ -> In v univ ->
+    mapk enc (bc_add bound c v) = Bounded.cadd bound (mapk enc c) (enc v).
+  Proof.
+    intros Hc Hv. unfold bc_add, Bounded.cadd, mapk at 2. rewrite map_length.
+    destruct (Z.of_nat (length c) <? bound); [apply incr_bridge; assumption|reflexivity].
+  Qed.
+
+  Lemma bc_add_keys bound c v : incl (map fst c) univ -> In v univ -> incl (map fst (bc_add bound c v)) univ.
+  Proof.
+    intros Hc Hv. unfold bc_add. destruct (Z.of_nat (length c) <? bound); [|assumption].
+    intros x I. apply keys_incr in I. destruct I as [->|I]; [assumption|apply Hc; assumption].
+  Qed.
+
+  Lemma bc_fold_bridge bound col : forall c, incl (map fst c) univ -> incl col univ ->
+    mapk enc (fold_left (bc_add bound) col c) = fold_left (Bounded.cadd bound) (map enc col) (mapk enc c).
+  Proof.
+    induction col as [|v col IH]; intros c Hc Hcol; cbn [fold_left map]; [reflexivity|].
+    assert (Hv : In v univ) by (apply Hcol; left; reflexivity).
+    rewrite IH; [rewrite bc_add_bridge by assumption; reflexivity|apply bc_add_keys; assumption|].
+    intros x I. apply Hcol. right. exact I.
+  Qed.
+
+  (* the bounded counter of this file, keys renamed by an injective id assignment, IS C15's crun on the ids *)
+  Lemma counter_bridge bound j (bs : list batch) : incl (column j (concat bs)) univ ->
+    mapk enc (counter bound j bs) = Bounded.crun bound (map enc (column j (concat bs))).
+  Proof.
+    intro H. rewrite counter_is_concat. unfold Bounded.crun.
+    apply (bc_fold_bridge bound _ []); [intros x []|assumption].
+  Qed.
+End BoundedBridge.
+
 (* ====================================================================================== *)
 (* (iii) rare values                                                                       *)
 
